@@ -1288,6 +1288,10 @@ func (c *Ctx) recursionGates(fns []*ssa.Function, reach map[*ssa.Function]bool) 
 			if sa := scannerArgOf(e.site); sa != nil && c.behindBeginEexec(e.site, sa, 2) {
 				return "nested eexec is refused by BeginEexec (rule L3-EEXEC)", true
 			}
+		case c.tokenLoopEntries(ia).fns[e.to] && c.afterBegin(e.site, c.method("postscript", "scanner", "BeginEexec"), 2):
+			// a call into the token loop (or a helper through which it is entered) that is only reached
+			// after BeginEexec succeeded; rule L3-EEXEC (run below) reports any other way in
+			return "nested eexec is refused by BeginEexec (rule L3-EEXEC)", true
 		case e.from == execFn && com.StaticCallee() == nil && !com.IsInvoke():
 			// direct call of an operator object: one operand was popped before, nothing is pushed in between
 			popped := false
@@ -1543,7 +1547,7 @@ func (c *Ctx) classifyLoop(fn *ssa.Function, h *ssa.BasicBlock, body map[*ssa.Ba
 		return false
 	}
 	// the dispatch loop of the interpreter: every iteration passes the operation counter
-	cutGate := func(b *ssa.BasicBlock) bool {
+	cutGateA1 := func(b *ssa.BasicBlock) bool {
 		for _, ins := range b.Instrs {
 			if st, ok := ins.(*ssa.Store); ok && isFieldAddr(st.Addr, ia.T, "NumOps") {
 				return true
@@ -1564,6 +1568,10 @@ func (c *Ctx) classifyLoop(fn *ssa.Function, h *ssa.BasicBlock, body map[*ssa.Ba
 		}
 		return false
 	}
+	// (the store to the counter, or the call of a helper that counts on every path: opCounter, ext_x6.go;
+	// two derivations of the same fact, either suffices)
+	cutGateD2 := c.opCounter(ia).marked
+	cutGate := func(b *ssa.BasicBlock) bool { return cutGateA1(b) || cutGateD2(b) }
 	if !cycleInBody(h, body, func(b *ssa.BasicBlock) bool { return cutGate(b) || cutP4(b) }) {
 		return "P4 budgeted", "every iteration passes the operation counter and budget test (or a nested dispatch)"
 	}
